@@ -354,7 +354,30 @@ func cmdCheck(args []string) int {
 		}
 		return nil
 	}
+	// contracts whose function no longer exists (renamed / removed): the modular structure the other contracts of that
+	// package were written for is gone, so a proof that fails there decides nothing by itself
+	orphans := map[string][]string{}
+	for _, p := range eng.pkgs {
+		if p.cf == nil || !strings.HasPrefix(p.PkgPath, modPath) {
+			continue
+		}
+		for _, k := range p.cf.Order {
+			ct := p.cf.Contracts[k]
+			if ct.Extern || strings.HasPrefix(k, "$") {
+				continue
+			}
+			outer := k
+			if i := strings.LastIndex(k, "$"); i > 0 {
+				outer = k[:i]
+			}
+			if f, _ := p.findFunc(outer); f == nil {
+				orphans[p.Types.Name()] = append(orphans[p.Types.Name()], k)
+			}
+		}
+	}
 	var violations []string
+	var undecided []string
+	replayed := map[string]bool{}
 	var knownHit []*KnownFinding
 	nObl, nDis := 0, 0
 	var failedNames []string
@@ -374,7 +397,29 @@ func cmdCheck(args []string) int {
 			knownHit = append(knownHit, k)
 			continue
 		}
+		pkgName := name
+		if i := strings.Index(name, "."); i > 0 {
+			pkgName = name[:i]
+		}
+		if len(orphans[pkgName]) > 0 {
+			// only a counterexample that replays on the real code makes this a violation
+			os.MkdirAll(filepath.Join(outDir(eng), "replays", prop), 0o755)
+			path := filepath.Join(outDir(eng), "replays", prop, sanitizeFile(name)+".json")
+			if writeReplay(eng, prop, path, s, work) {
+				replayed[name] = true
+				violations = append(violations, name)
+			} else {
+				os.Remove(path)
+				undecided = append(undecided, name)
+			}
+			continue
+		}
 		violations = append(violations, name)
+	}
+	for _, u := range undecided {
+		pkgName := u[:strings.Index(u, ".")]
+		degraded = append(degraded, fmt.Sprintf("%s: not discharged, and package %s has contracts for functions that no longer exist (%s): the contracts are stale, the failed proof decides nothing",
+			u, pkgName, strings.Join(orphans[pkgName], ", ")))
 	}
 
 	// bounded stand-ins: for unsupported functions (always) and in the thorough tier
